@@ -275,6 +275,46 @@ func (k *c17Case) use(kind, name string, tags map[string]string, spec c17Spec) i
 				outcome = "usable"
 			}
 		}
+	case "rc", "rg":
+		// RegisterCounter / RegisterGauge with the label names in DESCENDING order (not the order a sorted key list
+		// would have) and the default help text, then With(tags) by the caller, as for RegisterTimer
+		keys := make([]string, 0, len(tags))
+		for t := range tags {
+			keys = append(keys, t)
+		}
+		sort.Sort(sort.Reverse(sort.StringSlice(keys)))
+		var cv *prom.CounterVec
+		var gv *prom.GaugeVec
+		var err error
+		p, v := catch(func() {
+			if kind == "rc" {
+				cv, err = k.rep.RegisterCounter(name, keys, name+" counter")
+			} else {
+				gv, err = k.rep.RegisterGauge(name, keys, name+" gauge")
+			}
+		})
+		switch {
+		case p:
+			outcome = c17PanicClass(v)
+		case err != nil:
+			outcome = "regerr"
+			errs = []string{c17ErrClass(err)}
+		case kind == "rc" && cv == nil, kind == "rg" && gv == nil:
+			outcome = "nilvec"
+		default:
+			p, v := catch(func() {
+				if kind == "rc" {
+					obj = cv.With(tags)
+				} else {
+					obj = gv.With(tags)
+				}
+			})
+			if p {
+				outcome = c17PanicClass(v)
+			} else {
+				outcome = "usable"
+			}
+		}
 	default:
 		switch kind {
 		case "t":
@@ -355,13 +395,31 @@ func (k *c17Case) inc(id int, n int64) {
 	if id < 0 || k.handles[id].dead {
 		return
 	}
-	k.op(id, "inc", strconv.FormatInt(n, 10), func() { k.handles[id].obj.(tally.Counter).Inc(n) })
+	k.op(id, "inc", strconv.FormatInt(n, 10), func() {
+		switch o := k.handles[id].obj.(type) {
+		case tally.Counter:
+			o.Inc(n)
+		case prom.Counter: // the caller of RegisterCounter writes to the series directly
+			o.Add(float64(n))
+		default:
+			fatalf("c17: inc on %T", o)
+		}
+	})
 }
 func (k *c17Case) upd(id int, v float64) {
 	if id < 0 || k.handles[id].dead {
 		return
 	}
-	k.op(id, "upd", f64hex(v), func() { k.handles[id].obj.(tally.Gauge).Update(v) })
+	k.op(id, "upd", f64hex(v), func() {
+		switch o := k.handles[id].obj.(type) {
+		case tally.Gauge:
+			o.Update(v)
+		case prom.Gauge:
+			o.Set(v)
+		default:
+			fatalf("c17: upd on %T", o)
+		}
+	})
 }
 func (k *c17Case) rec(id int, d time.Duration) {
 	if id < 0 || k.handles[id].dead {
@@ -639,6 +697,18 @@ func c17HistoryCase(c *Ctx, r *Rng) {
 			return
 		}
 		used[key] = true
+		if (m.kind == "c" || m.kind == "g") && r.Chance(25) {
+			// the application pre-registers the vector (RegisterCounter / RegisterGauge) before the scope uses it
+			pk := "r" + m.kind
+			pid := k.use(pk, m.name, tags, m.spec)
+			transcript = append(transcript, "use "+pk+"|"+m.name+"|"+mapHex(tags))
+			c.Cov.Hit("history.pre-registered-" + pk)
+			if pid >= 0 && !k.handles[pid].dead {
+				pm := m
+				pm.kind = pk
+				lives = append(lives, live{pid, pm})
+			}
+		}
 		id := k.use(m.kind, m.name, tags, m.spec)
 		transcript = append(transcript, "use "+key)
 		if id >= 0 && !k.handles[id].dead {
@@ -701,6 +771,14 @@ func c17HistoryCase(c *Ctx, r *Rng) {
 				}
 				k.inc(l.id, v)
 				transcript = append(transcript, fmt.Sprintf("inc %d %d", l.id, v))
+			case "rc":
+				v := int64(r.Intn(1000))
+				k.inc(l.id, v)
+				transcript = append(transcript, fmt.Sprintf("inc %d %d", l.id, v))
+			case "rg":
+				v := float64(r.Range(-1000, 1000)) / 4
+				k.upd(l.id, v)
+				transcript = append(transcript, fmt.Sprintf("upd %d %x", l.id, math.Float64bits(v)))
 			case "g":
 				var v float64
 				switch r.Intn(4) {
